@@ -59,6 +59,17 @@ fn main() {
         i += 1;
     }
     util::install_quiet_panic_hook();
+    if engine != "mut-replay" {
+        // generous: the longest legitimate silent stretch is one batch sent to the Lean driver
+        let limit = match (engine.as_str(), tier.as_str()) {
+            // cases of the hostile-data engine take milliseconds; it records the case in flight
+            ("mut", "thorough") => 120,
+            ("mut", _) => 45,
+            (_, "thorough") => 900,
+            _ => 240,
+        };
+        util::start_watchdog(limit, out.clone());
+    }
     let t0 = std::time::Instant::now();
     let mut rep = match engine.as_str() {
         "rule" => rules::run(&tier, seed),
